@@ -79,7 +79,7 @@ def helper_unit(ctx, thorough):
     for b in H.CORPUS:
         progs.append(None)
         srcs.append(progen.HEADER + b)
-    n = 420 if thorough else 56
+    n = 420 if thorough else 44
     gstats = collections.Counter()
     sites = collections.Counter()
     for i in range(n):
@@ -803,11 +803,11 @@ def run_unit(ctx: C.Ctx):
         "C int = Z and device float = Q in the models: runs that leave the 32-bit / binary32 range are detected on the CPython side and excluded, not blamed"]
     return {
         "distribution": distribution, "outside_guard_samples": outside[:3],
-        "theorems": "C01_no_silent_drop, C01_break_guard, C01_continue_guard, C01_continue_translation (all programs); C01_stmt_preserve_partial (simulation inside StmtGuard.guard_ok, modulo the shared expression semantics + SemFacts.sem_facts); C01_stmt_{range_bound,retype,promotion_reinit,loop_local_reinit}_refuted (witnesses = listed findings)",
+        "theorems": "C01_no_silent_drop, C01_break_guard, C01_continue_guard, C01_continue_translation (all programs); C01_stmt_preserve_partial (simulation inside StmtGuard.guard_ok, modulo the shared expression semantics + SemFacts.sem_facts); C01_stmt_{range_bound,retype,promotion_reinit,loop_local_reinit}_refuted (witnesses = listed findings); helper functions (Lang/FnRet.v): C01_return_type_covers, C01_bool_helper_only_truth_values, C01_number_or_truth_helper_is_int (all label lists), C01_helper_call_value_preserved (every body with any number of return statements: same state, events and number on both sides), C01_helper_call_serial_preserved_partial (guard FnRet.uniform_kind), C01_helper_mixed_return_refuted (finding F-C01-helper-mixed-return); tuple assignment (Lang/TupleOrder.v): C01_tuple_rhs_evaluated_in_source_order, C01_tuple_declaration_evaluated_in_source_order (the emitted statements evaluate e0..en once each, in source order, before the first target is written)",
         "guard": "StmtGuard.guard_ok: every variable first assigned at top level of the setup part (global) or at top level of the `while True:` body before any read in that body (loop() local); later assignments keep the type label; tuple assignment either as the declaration of distinct new names at top level of the setup part, or (n >= 1) to names that are all declared already with unchanged types (swap / rotation / parallel assignment through block-local temporaries `__tmp_assign_k`, at any nesting level and in the main loop; mixed new/declared tuples and tuple declarations inside the main loop stay outside); declared names are not spelled like a temporary; range() bound int-labelled, independent of the loop variable and of names the body assigns; loop variables fresh, unassigned, read only inside their loop; consistent expression ids.  Oracle guard (dynamic): no computed int leaves 32 bits (CPython run with every expression instrumented); a script whose deviation the extracted model itself predicts (outside guard_ok) is not blamed.  `continue` is inside the guard (any placement the parser accepts: in for / while loops, under nested ifs, in the body of the main loop where it is `return;` from loop())",
-        "unmodelled": ["helper functions, lists, try/except, device objects (firmware-vs-CPython oracle only)", "hoisting (promotion: a name first assigned inside an if/while/for block) is in Lang.Transl and in the executable correspondence (IR and both traces), but outside the simulation theorem's guard; the three refuted witnesses (hoisted-decl-reinit, loop-local-reinit, retype) mark where the unchanged code stops preserving behaviour", "tuples mixing new and declared names, tuple declarations inside the main loop (loop() locals initialised from temporaries)", "expression translation (unit C01_expr): the simulation is modulo a shared opaque expression semantics", "16-bit int of a real AVR"],
+        "unmodelled": ["helper functions: the return type and the returned value are modelled (Lang/FnRet.v, tied to _merge_return_types exhaustively and to the emitted return type of every generated helper); parameters / per-signature variants, locals of a helper and the call sites inside expressions are covered by the firmware-vs-CPython oracle only (generated helpers: several return statements, effects, calls in every expression position)", "side effects of expressions: the simulation theorem's expression semantics is pure; the ORDER of effectful right-hand sides of a tuple assignment is proved at the level of the emitted node list (C01_tuple_rhs_evaluated_in_source_order) and observed on the firmware by the oracle; C++ operand / argument evaluation order inside one expression is outside every model (finding F-C01-eval-order)", "lists, try/except, device objects (firmware-vs-CPython oracle only)", "hoisting (promotion: a name first assigned inside an if/while/for block) is in Lang.Transl and in the executable correspondence (IR and both traces), but outside the simulation theorem's guard; the three refuted witnesses (hoisted-decl-reinit, loop-local-reinit, retype) mark where the unchanged code stops preserving behaviour", "tuples mixing new and declared names, tuple declarations inside the main loop (loop() locals initialised from temporaries)", "expression translation (unit C01_expr): the simulation is modulo a shared opaque expression semantics", "16-bit int of a real AVR"],
         "evaluations": len(progs) + len(lsrcs) + ir["ir_cases"] + ir.get("exec_cases", 0) + hu.get("merge_cases", 0) + hu["helper_programs"], "list_programs_by_status": dict(lstats), "programs_by_status": dict(stats), "ir_correspondence": ir,
         "distinct_nontrivial": len({s for s, r in zip(srcs, res) if r["status"] == "equal" and len(r["py"]) >= 3}) + hu["nontrivial"],
         "samples": [srcs[0][len(progen.HEADER):], srcs[-1][len(progen.HEADER):]],
-        "rule": "the witnesses of repaired defects first (F-C01-continue-dropped), then 20 hand-written boundary programs (break guard, nested break, empty range, elif chain, shadowing loop variable, tuple declarations reading re-assigned variables, tuple assignments to declared names - float swap, rotation, Fibonacci step, swaps in the main loop -, promotion out of for/while/if; `continue` in for-range, in while, under nested ifs, in an else arm, in the inner of two loops, in the main loop body directly / under nested ifs / inside a for loop of the main loop, unconditional with dead code after it, misplaced = rejected) + seeded programs from harness/progen.py over 8 feature sets (core ints; +floats; +helper functions; +tuple/swap; all; first assignment inside branches; `continue`; `continue` + all), N in 0..3 loop passes, scripted analog/digital inputs (half of them constant per pin); every program: firmware trace vs CPython trace (oracle); programs without helper functions: IR of Lang.Transl.transl vs IR of the real parser; those with constant inputs additionally: extracted pexec vs CPython trace and extracted transl+cexec vs firmware trace (Lang.StmtExec), and the number of them inside the guard of C01_stmt_preserve_partial is recorded; non-trivial = both sides ran and the common trace has >= 3 events",
+        "rule": "the witnesses of repaired defects first (F-C01-continue-dropped), then 20 hand-written boundary programs (break guard, nested break, empty range, elif chain, shadowing loop variable, tuple declarations reading re-assigned variables, tuple assignments to declared names - float swap, rotation, Fibonacci step, swaps in the main loop -, promotion out of for/while/if; `continue` in for-range, in while, under nested ifs, in an else arm, in the inner of two loops, in the main loop body directly / under nested ifs / inside a for loop of the main loop, unconditional with dead code after it, misplaced = rejected) + seeded programs from harness/progen.py over 8 feature sets (core ints; +floats; +helper functions; +tuple/swap; all; first assignment inside branches; `continue`; `continue` + all), N in 0..3 loop passes, scripted analog/digital inputs (half of them constant per pin); every program: firmware trace vs CPython trace (oracle); programs without helper functions: IR of Lang.Transl.transl vs IR of the real parser; those with constant inputs additionally: extracted pexec vs CPython trace and extracted transl+cexec vs firmware trace (Lang.StmtExec), and the number of them inside the guard of C01_stmt_preserve_partial is recorded; non-trivial = both sides ran and the common trace has >= 3 events; HELPER FUNCTIONS (harness/c01_helpers.py): 12 hand-written helper scripts (False-or-number and number-or-comparison helpers, tuple assignment from reporting / global-updating / sleeping / pin-driving helpers at module level, in the main loop and to function locals, early return out of loops, recursion, bare return, two call signatures, calls in while/if/elif conditions, and/or operands, conditional-expression arms, f-string fields) + seeded programs with 2-5 helpers each (kinds int / bool / bool+int mixed / float / void; shapes guard chain, early return in for and while loops, nested ifs, single return; effects serial / delay / pin / global counter) called from every expression position; oracle = firmware trace vs CPython trace; ties = Lang.FnRet.merge_ret vs _merge_return_types on all 2730 label lists of length <= 5 x has_void, and per parsed helper: labels handed to _merge_return_types = `return e` statements of the generated body, emitted return type = cpp(merge_ret labels)",
     }
